@@ -1,6 +1,12 @@
+//go:build verif_c08wb
+
 package main
 
 import "github.com/cloudwego/eino/compose"
+
+// White-box group "verif_c08wb" (props/C08.json extra_tags; the hook /repo/compose/verif_c08.go carries the
+// same tag): without the tag compose_off.go does the same through the public API of package schema.
+const whiteboxAvailable = true
 
 // the same calls through compose/stream_reader.go's streamReaderPacker (hook compose/verif_c08.go)
 func composeCopy(sr SR, n int) []SR { return compose.VerifC08Copy(sr, n) }
